@@ -408,7 +408,8 @@ func TestC10(t *testing.T) {
 	// A rolled-back block that accumulated several rewards into one contract lockup record (multi-entry undo
 	// list) must have been explored; whether the abandoned branch holds one depends on how the coinbase ETXs
 	// happen to be released: add lockup scenarios (index = 2 mod 3) until it was seen, at most 6 more.
-	for extra := 0; extra < 6 && m.Seen("reorg-over-contract-lockup-accumulations") < 2 && m.Violations() == 0; extra++ {
+	// (not conditioned on m.Violations(): listed findings are recorded as violations too and must not stop the exploration)
+	for extra := 0; extra < 6 && m.Seen("reorg-over-contract-lockup-accumulations") < 2; extra++ {
 		scenario(m, r, 3*(n+extra)+2)
 		m.AddExtra("extra_lockup_scenarios", 1)
 	}
